@@ -97,11 +97,16 @@ def run_checker(ctx, seed, index, with_default, targetfile):
         open(af, 'wb').write(MARK)
         tf = None
         file_target = None
-        if targetfile:
+        if targetfile == 3:
+            file_target = {}
+        elif targetfile == 4:
+            file_target = {'target': {'project': {}, 'user': {}}}
+        elif targetfile:
             file_target = {'project_id': 'p1' if targetfile == 1 else 'p2',
                            'user_id': 'u1',
                            'target': {'user': {'id': 'u1' if targetfile == 1
                                                else 'u2'}}}
+        if targetfile:
             tf = env.path('target.json')
             open(tf, 'w').write(json.dumps(file_target))
         shell.jsonutils = _Json(saved, token)
@@ -183,7 +188,7 @@ def cubes_checker(tier, seed):
     out = []
     for i in range(n):
         out.append({'seed': seed, 'index': i, 'with_default': i % 2 == 0,
-                    'targetfile': i % 3})
+                    'targetfile': i % 5})
     return out
 
 
